@@ -196,3 +196,93 @@ static Reg r_jutil("jutil", [](std::vector<std::string> const& a) -> std::string
     }
     return "?unknown-function";
 });
+
+// ---- document-level import: QPDF::createFromJSON [+ updateFromJSON] on whole JSON texts, the resulting document as text
+// (format: ocaml/h_json.ml show_doc; /Length is left out of stream dictionaries, null objects are left out)
+namespace {
+    std::string phex(std::string const& s) { return s.empty() ? std::string() : hex(s); }
+
+    void tree_of(QPDFObjectHandle oh, bool top, std::vector<std::string>& out, bool strip_length = false) {
+        if (!top && oh.isIndirect()) {
+            out.push_back("R" + std::to_string(oh.getObjectID()) + "." + std::to_string(oh.getGeneration()));
+            return;
+        }
+        switch (oh.getTypeCode()) {
+        case ::ot_null: out.push_back("n"); break;
+        case ::ot_boolean: out.push_back(oh.getBoolValue() ? "t" : "f"); break;
+        case ::ot_integer: out.push_back("i" + std::to_string(oh.getIntValue())); break;
+        case ::ot_real: out.push_back("r" + phex(oh.getRealValue())); break;
+        case ::ot_string: out.push_back("s" + phex(oh.getStringValue())); break;
+        case ::ot_name: out.push_back("N" + phex(oh.getName())); break;
+        case ::ot_array:
+            out.push_back("[");
+            for (auto const& item: oh.getArrayAsVector()) tree_of(item, false, out);
+            out.push_back("]");
+            break;
+        case ::ot_dictionary:
+            out.push_back("{");
+            for (auto const& [k, v]: oh.getDictAsMap()) {
+                if (strip_length && k == "/Length") continue;
+                out.push_back("k" + phex(k));
+                tree_of(v, false, out);
+            }
+            out.push_back("}");
+            break;
+        case ::ot_reference:
+            // only reachable at the top: QPDF::replaceObject(og, <handle of og>) leaves an object that refers to itself
+            out.push_back("R" + std::to_string(oh.getObjectID()) + "." + std::to_string(oh.getGeneration()));
+            break;
+        default: out.push_back("?" + std::string(oh.getTypeName())); break;
+        }
+    }
+
+    std::string join(std::vector<std::string> const& v) {
+        std::string r;
+        for (size_t i = 0; i < v.size(); ++i) { if (i) r += ","; r += v[i]; }
+        return r;
+    }
+}
+
+// jrimp <hex JSON text> [<hex JSON text for updateFromJSON>]
+static Reg r_jrimp("jrimp", [](std::vector<std::string> const& a) -> std::string {
+    QPDF q;
+    q.setSuppressWarnings(true);
+    try {
+        q.createFromJSON(std::make_shared<BufferInputSource>("json", unhex(a.at(0))));
+        if (a.size() > 1) {
+            q.updateFromJSON(std::make_shared<BufferInputSource>("json2", unhex(a.at(1))));
+        }
+    } catch (std::logic_error const& e) {
+        return std::string("logic,") + hex(e.what());
+    } catch (std::exception const&) {
+        return "none";
+    }
+    try {
+        std::string r = "ok;v=" + phex(q.getPDFVersion()) + ";t=";
+        std::vector<std::string> t;
+        tree_of(q.getTrailer(), true, t);
+        r += join(t);
+        for (auto& oh: q.getAllObjects()) {
+            if (oh.isNull()) continue;
+            r += ";" + std::to_string(oh.getObjectID()) + "." + std::to_string(oh.getGeneration()) + "=";
+            std::vector<std::string> o;
+            if (oh.isStream()) {
+                tree_of(oh.getDict(), true, o, true);
+                std::string data;
+                try {
+                    auto b = oh.getRawStreamData();
+                    data = "D" + phex(std::string(reinterpret_cast<char const*>(b->getBuffer()), b->getSize()));
+                } catch (std::exception const&) {
+                    data = "E";
+                }
+                r += "s:" + join(o) + ":" + data;
+            } else {
+                tree_of(oh, true, o);
+                r += "v:" + join(o);
+            }
+        }
+        return r;
+    } catch (std::exception const& e) {
+        return std::string("dumpfail,") + hex(e.what());
+    }
+});
